@@ -633,6 +633,155 @@ def rsa_single_relational(rec, seed, check, variant, aspects, prop):
                        args=dict(check=check)), bool(probs))
 
 
+def rsa_single_rerun(rec, seed, check, first, second):
+  """The same key objects through two check objects of the same class one
+  after the other (constructor variants `first`, `second`): after the second
+  run every key with recorded factors is marked weak, the factors divide the
+  modulus and the entry of the check is positive (C01 over re-runs)."""
+  import contextlib  # pylint: disable=g-import-not-at-top
+  pb, rsc, rsa_util, scf, util, roca = mods()
+  va, vb = variants(rsc)[check][first], variants(rsc)[check][second]
+  rec.functions('paranoid_crypto.lib.rsa_single_checks:%s.Check' % check,
+                'paranoid_crypto.lib.util:SetTestResult')
+  rec.bounds('%s%r then %s%r on the same two key objects; moduli symbolic '
+             '(n1 in [2^159, 2^161), n2 in [2^63, 2^65)); kernels replaced by '
+             'memoised contract stubs' % (check, va, check, vb))
+  cexs = []
+  reach = 0
+
+  def run(e):
+    ca, cb = make_check(rsc, check, va), make_check(rsc, check, vb)
+    ns = [ivar(e, 'n%d' % i, lo=lo, hi=hi)
+          for i, (lo, hi) in enumerate(RANGES)]
+    keys = []
+    for i in range(2):
+      k = pb.RSAKey()
+      k.rsa_info.n = ns[i]
+      k.rsa_info.e = ivar(e, 'e%d' % i, lo=0)
+      keys.append(k)
+    att = Attach()
+    e.notes.update(ns=ns, keys=keys, att=att)
+    with stubs.patched(util, AttachFactors=att):
+      return ca.Check(keys), cb.Check(keys)
+
+  with contextlib.ExitStack() as st:
+    for mod, names in patches(rsc, rsa_util, scf, util, None):
+      st.enter_context(stubs.patched(mod, **names))
+    for p in pysym.explore(run, max_paths=4000):
+      e = p.eng
+      rec.path(p.kind)
+      if p.kind == 'abort':
+        rec.inconclusive('path aborted: %s' % p.value)
+        continue
+      if p.kind == 'raise':
+        continue  # totality is C18
+      ns, keys, att = e.notes['ns'], e.notes['keys'], e.notes['att']
+      goals = []
+      for i, k in enumerate(keys):
+        mine = [c for c in att.calls if c[0] is k.test_info]
+        ents = entry_of(k, check)
+        goals.append(('one_entry', z3.BoolVal(len(ents) == 1)))
+        for (_, name, fs) in mine:
+          prod = z3.IntVal(1)
+          for f in fs:
+            prod = prod * T(f)
+          goals.append(('factors_divide_modulus',
+                        z3.And(prod == ns[i].t, *[T(f) > 0 for f in fs])
+                        if len(fs) == 2 else z3.BoolVal(False)))
+        if mine and len(ents) == 1:
+          goals.append(('factored_key_is_weak', z3.And(
+              b(k.test_info.weak), b(ents[0].result))))
+      for name, g in goals:
+        g = z3.simplify(g)
+        if z3.is_true(g):
+          rec.obligation('proved')
+          continue
+        r, m, _ = e.prove(g, timeout_ms=60000)
+        if r == 'proved':
+          rec.obligation('proved')
+        elif r == 'unknown':
+          rec.obligation('unknown', '%s rerun %s' % (check, name))
+        else:
+          cexs.append((name, inputs_of(e, m)))
+      if reach == 0:
+        r, m = e.feasible()
+        if r == 'sat':
+          reach = 1
+          rec.sample(dict(check=check, first=repr(va), second=repr(vb),
+                          witness=inputs_of(e, m)))
+  rec.reach(1, reach)
+  if cexs:
+    probs = rerun_oracle(check)
+    rec.replayed()
+    names = sorted({c[0] for c in cexs})
+    rec.violation('rsa_single_checks.%s.Check' % check, names[0],
+                  '%s after a re-run; concrete oracle: %s' %
+                  (', '.join(names), probs[:2] if probs else
+                   'no concrete witness found'), cexs[0][1],
+                  dict(module='harness.checklevel',
+                       function='replay_rerun_oracle',
+                       args=dict(check=check)), bool(probs))
+
+
+def rerun_oracle(check_name):
+  """Real check, real protobufs: a weak parameterisation first, the default
+  one afterwards, on witness moduli; recorded factors => weak."""
+  pb = common.lib(fakes=False)
+  pb2shim.use_fakes(False)
+  from paranoid_crypto.lib import rsa_single_checks as rsc  # pylint: disable=g-import-not-at-top
+  from paranoid_crypto.lib import util  # pylint: disable=g-import-not-at-top
+  import gmpy2  # pylint: disable=g-import-not-at-top
+  np_ = lambda x: int(gmpy2.next_prime(x))
+  weakest = {'CheckFermat': (1,), 'CheckContinuedFractions': (2**200,),
+             'CheckBitPatterns': ([3],), 'CheckPollardpm1': (2,)}
+  problems = []
+  pool = witness_pool()
+  p = np_(2**40 + 4242)
+  pool.append(('fermat_100_steps', p * np_(p + 3 * 10**7)))
+  for nm, n in pool:
+    k = pb.RSAKey()
+    k.rsa_info.n = util.Int2Bytes(n)
+    k.rsa_info.e = util.Int2Bytes(65537)
+    try:
+      cls = getattr(rsc, check_name)
+      first = cls(*weakest[check_name]) if check_name in weakest else cls()
+      first.Check([k])
+      cls().Check([k])
+    except Exception as ex:  # pylint: disable=broad-except
+      problems.append('%s re-run raised on [%s]: %r' % (check_name, nm, ex))
+      continue
+    fs = util.GetAttachedFactors(k.test_info, 'N_FACTORS')
+    ents = [r for r in k.test_info.test_results if r.test_name == check_name]
+    if fs and (not k.test_info.weak or len(ents) != 1 or not ents[0].result):
+      problems.append('%s re-run on [%s]: factors %r recorded, weak=%r, '
+                      'entry=%r' % (check_name, nm, sorted(fs),
+                                    k.test_info.weak,
+                                    [(r.result) for r in ents]))
+    if fs and any(f <= 0 or n % f for f in fs):
+      problems.append('%s re-run on [%s]: factor does not divide' %
+                      (check_name, nm))
+  return problems
+
+
+def replay_rerun_oracle(check):
+  probs = rerun_oracle(check)
+  for p_ in probs:
+    print(p_)
+  return bool(probs)
+
+
+def rerun_jobs():
+  from harness.runner import Job  # pylint: disable=g-import-not-at-top
+  out = []
+  for nm, a, b_ in (('CheckFermat', 1, 0), ('CheckContinuedFractions', 1, 0),
+                    ('CheckBitPatterns', 1, 0), ('CheckPollardpm1', 0, 0),
+                    ('CheckHighAndLowBitsEqual', 0, 0),
+                    ('CheckLowHammingWeight', 0, 0)):
+    out.append(Job('rerun_%s' % nm, rsa_single_rerun,
+                   dict(check=nm, first=a, second=b_), timeout=1800, cost=10))
+  return out
+
+
 def replay_oracle(check):
   probs = concrete_oracle(check)
   for p_ in probs:
